@@ -1,7 +1,7 @@
 """Generators of class histories (dom="meta"; see implmeta.py / Lean MetaCase)."""
 import itertools
 
-KEYS = ["m", "n", "s", "c", "p", "__init__"]
+KEYS = ["m", "n", "s", "c", "p", "__init__", "_q"]
 
 
 def op(kind, **kw):
@@ -85,12 +85,15 @@ def random_history(rng, max_classes=6, p_inv=0.5, keys=KEYS, late=False):
                 acc = {}
                 for a in ("fget", "fset", "fdel"):
                     if rng.random() < 0.6:
-                        acc[a] = b.new_fn(rng.choice([0, 1]), rng.choice([0, 1]))
+                        np_ = rng.choice([0, 1])
+                        acc[a] = b.new_fn(rng.choice([0, 1]), np_, rng.choice([0, 0, 1]) if np_ else 0)
                 if not acc:
                     acc["fget"] = b.new_fn(npre, npost)
                 ns.append(b.member(key, **acc))
             else:
                 f = b.new_fn(npre, npost, nsnap, sname)
+                if late and rng.random() < 0.3:
+                    b.ops.append(op("call", f=f))       # the decorated function is used on its own before the class exists
                 if late and key in ("m", "n") and plain_fns and rng.random() < 0.3:
                     same_bare[str(f)] = rng.choice(plain_fns)          # the same implementation function, decorated again
                 elif late and key in ("m", "n"):
@@ -133,6 +136,7 @@ def random_history(rng, max_classes=6, p_inv=0.5, keys=KEYS, late=False):
     c = b.case()
     if late:
         c["sameBare"] = same_bare
+    c["module"] = rng.choice(["verif_hist", "verif_hist", "icontract_models", "icontractual.shapes", "my_icontract", "icontract_ext"])
     return c
 
 
